@@ -182,7 +182,16 @@ func checkC13(c *core.Ctx) {
 		{"UnionBranch", "dupdef", "a union branch that re-uses the name of another definition"},
 		{"UnionBranch", "dupname", "two fields with one name inside a union branch"},
 	}
+	// the facets that hang on the set of defined names can only be read off
+	// when that set was identified (a map that reaches the definedness check)
+	setKnown := len(defSets) > 0 && len(setTakers) > 0
+	if !setKnown {
+		c.Undecide("Validate: no map of defined type names reaches a definedness check: the duplicate-definition and undefined-type facets are not recognised in this arrangement")
+	}
 	for _, r := range required {
+		if !setKnown && (r.facet == "dupdef" || r.facet == "undefined") {
+			continue
+		}
 		c.Check("R1", fmt.Sprintf("Validate checks %s for %s", r.facet, r.kind), p.Pos(fd.Pos()), kinds[r.kind][r.facet],
 			fmt.Sprintf("no loop over %s performs the %q check: a schema with %s is accepted and compiled", r.kind, r.facet, r.why))
 	}
@@ -227,8 +236,10 @@ func checkC13(c *core.Ctx) {
 		})
 		return true
 	})
-	c.Check("R1", "Validate checks dupdef for Unions against union branch names", p.Pos(fd.Pos()), len(branchSets) > 0 && consulted,
+	if setKnown {
+		c.Check("R1", "Validate checks dupdef for Unions against union branch names", p.Pos(fd.Pos()), len(branchSets) > 0 && consulted,
 		"no loop compares a union's own name with the names defined by union branches: `union Shape { 1 -> struct Circle {} }` followed by `union Circle {}` declares Circle twice")
+	}
 	// the definedness check (typeDefined, or whatever it is called or shaped as:
 	// the function that looks a FieldType's .Simple up in a set of names)
 	// recurses into array elements, map keys and map values
